@@ -25,7 +25,9 @@ def concretise(req):
     files = []
     if req['dep']:
         files.append(dict(name='other/dep/v1/dep.proto', package='other.dep.v1', target=False, imports=[],
-                          messages=[dict(name='Dep', fields=[dict(name='x')])]))
+                          messages=[dict(name='Dep', fields=[dict(name='x')]),
+                                    dict(name='DepReq', fields=[dict(name='name', number=4), dict(name='payload', type='Dep', number=2),
+                                                                dict(name='note', required=True, number=9)])]))
     item_fields = [dict(name='name'), dict(name='id', type='int32')]
     if req['dep']:
         item_fields.append(dict(name='dep', type='.other.dep.v1.Dep'))
@@ -66,6 +68,9 @@ def concretise(req):
         if req.get('extra') == 'kw':
             methods.append(dict(name='Import', **{'in': 'Req', 'out': 'Item'},
                                 http=[dict(verb='post', uri='/v1/{name=items/*}:import', body='*')]))
+        if req.get('extra') == 'xreq':
+            methods.append(dict(name='Xcheck', **{'in': '.other.dep.v1.DepReq', 'out': 'Item'},
+                                http=[dict(verb='post', uri='/v1/{name=items/*}:xcheck', body='*')]))
         last['services'].append(dict(name=s['camel'], methods=methods))
     items = [x.split('#')[0] for x in req['items']]
     api = dict(files=files)
@@ -264,12 +269,12 @@ def run_case(case, want_import=True, want_sources=False):
     return obs
 
 
-def get_cases(chk, tier, seed, scopes_quick=('tiny', 'options'), sim_quick=150, sim_thorough=3000):
+def get_cases(chk, tier, seed, scopes_quick=('tiny', 'options'), sim_quick=150, sim_thorough=3000, extra_scopes=()):
     """TLC: model-check the Pipeline spec and emit the cases (spec -> code).  quick: the tiny and options
     scopes exhaustively + a seeded -simulate sample of the shapes scope; thorough: all three exhaustively."""
     from . import tlc, core
     cases = []
-    scopes = list(scopes_quick) if tier == 'quick' else ['tiny', 'options', 'shapes']
+    scopes = (list(scopes_quick) if tier == 'quick' else ['tiny', 'options', 'shapes']) + list(extra_scopes)
     for sc in scopes:
         r = tlc.run('Pipeline', f'Pipeline.{sc}.cfg', deadlock=False, timeout=1500)
         chk.add_tlc(r, f'Pipeline model check scope={sc}')
